@@ -195,6 +195,12 @@ fn main() {
                  b"GET http://x/ HTTP/1.1", b"GET / HTTP/1.0", b"GET / HTTP/2", b"GET /", b"GET", b"", b"GET / HTTP/1.1 x", b"G(T / HTTP/1.1", b"GET /\xff HTTP/1.1", b"GET /%zz HTTP/1.1"] {
         n += 1; if let Some(m) = check_request(line) { if found.len() < 6 { found.push(m) } }
     }
+    // the version token: only the eight bytes `HTTP/1.1` name the protocol spoken here (DIGIT "." DIGIT, no sign, no leading zero,
+    // no other spelling of the same number); everything else is refused, never read as 1.1
+    for v in ["HTTP/1.01", "HTTP/01.1", "HTTP/001.001", "HTTP/+1.1", "HTTP/1.+1", "HTTP/1.1.0", "HTTP/1.10", "HTTP/1,1", "HTTP/1.1\t", "HTTP/1.", "HTTP/.1", "HTTP/1", "HTTP/11", "HTTP/ 1.1",
+              "HTTP/1.1a", "http/1.1", "Http/1.1", "HTTP\\1.1", "HTTPS/1.1", "HTTP/1.1/", "HTTP/\u{661}.1", "HTTP/1.\u{661}", "HTTP/0x1.1", "HTTP/1e0.1", "HTTP/1.1\0", "XHTTP/1.1", "", "1.1"] {
+        for line in [format!("GET / {v}"), format!("POST /a?b {v}")] { n += 1; if let Some(m) = check_request(line.as_bytes()) { if found.len() < 6 { found.push(m) } } }
+    }
     // two and three field lines: every pair from a pool of good and bad lines (leading blank, blank only, no colon, empty)
     // (an empty line would end the head, so it is not in the pool)
     let pool: [&[u8]; 13] = [b"a: 1", b"b:2", b"x-long: v w", b" a: 1", b"\ta: 1", b" ", b"\t", b" \t ", b"nocolon", b":v", b"a :1", b"a: \x80", b"A-b_c: ok "];
